@@ -11,7 +11,7 @@ R-TZDROP    datetime front-end: tzinfo is dropped only after astimezone().
 """
 import ast
 
-from ..engine import AnalysisError, dotted, iter_stmts, norm, walk_expr, parent_chain, kw
+from ..engine import AnalysisError, dotted, iter_stmts, norm, walk_expr, parent_chain, kw, const_str
 from ..prov import Prov, is_input
 from ..report import Finding
 from .. import api
@@ -459,6 +459,63 @@ def run(ctx):
                                       'different (default) value' % norm(st.targets[0])))
         else:
             ctx.ok('R-PARAMDEAD', name, w6, 'no dead re-assignment of a parameter')
+    # R-STEPINT: a file attribute reaches timedelta() only through int() / float()
+    ctx.rule('R-STEPINT', 'getTimes: a value computed from a file attribute (TSTEP read from netCDF is a numpy scalar) is converted with int() / float() before timedelta() gets it')
+    gt = mod.func('PseudoNetCDFFile.getTimes')
+    wgt = 'src/PseudoNetCDF/%s PseudoNetCDFFile.getTimes' % RP
+
+    def _attr_read(e):
+        for x in ast.walk(e):
+            if isinstance(x, ast.Attribute) and isinstance(x.value, ast.Name) and x.value.id == 'self' and x.attr.isupper() and isinstance(x.ctx, ast.Load):
+                return True
+            if isinstance(x, ast.Call) and dotted(x.func) == 'getattr' and len(x.args) >= 2 and isinstance(x.args[0], ast.Name) and x.args[0].id == 'self' \
+                    and (const_str(x.args[1]) or '').isupper():
+                return True
+        return False
+
+    def _bare_names(e, names):
+        """names of `names` that occur in e outside an int() / float() / '%d' % conversion"""
+        out = []
+
+        def walk(x, conv):
+            if isinstance(x, ast.Call) and dotted(x.func) in ('int', 'float', 'round') and dotted(x.func) != 'round':
+                conv = True
+            if isinstance(x, ast.BinOp) and isinstance(x.op, ast.Mod) and isinstance(x.left, ast.Constant) and isinstance(x.left.value, str):
+                conv = True
+            if isinstance(x, ast.Name) and x.id in names and not conv:
+                out.append(x.id)
+            if not conv and _attr_read(x) and isinstance(x, (ast.Attribute, ast.Call)) and not any(isinstance(y, ast.Name) and y.id in names for y in ast.walk(x)):
+                if isinstance(x, ast.Attribute) and isinstance(x.value, ast.Name) and x.value.id == 'self' and x.attr.isupper():
+                    out.append('self.' + x.attr)
+            for ch in ast.iter_child_nodes(x):
+                walk(ch, conv)
+        walk(e, False)
+        return out
+    tainted = set()
+    for _ in range(5):
+        for st in iter_stmts(gt.body):
+            if isinstance(st, ast.Assign) and len(st.targets) == 1 and isinstance(st.targets[0], ast.Name):
+                v = st.value
+                if isinstance(v, ast.Call) and dotted(v.func) in ('int', 'float', 'str', 'len'):
+                    continue
+                if isinstance(v, ast.BinOp) and isinstance(v.op, ast.Mod) and isinstance(v.left, ast.Constant) and isinstance(v.left.value, str):
+                    continue
+                if _bare_names(v, tainted) or (_attr_read(v) and not isinstance(v, ast.Call)) or (isinstance(v, ast.Call) and dotted(v.func) == 'getattr' and _attr_read(v)):
+                    tainted.add(st.targets[0].id)
+    nstep = 0
+    for c in walk_expr(gt):
+        if isinstance(c, ast.Call) and (dotted(c.func) or '').split('.')[-1] == 'timedelta':
+            for k in c.keywords:
+                if k.arg is None:
+                    continue
+                bare = _bare_names(k.value, tainted)
+                if not bare:
+                    continue
+                nstep += 1
+                ctx.violation(Finding('R-STEPINT', RP, 'PseudoNetCDFFile.getTimes', api.stmt_of(c), 'timedelta(%s=...) gets a value computed from the file attribute behind %s without int() / float(): an attribute '
+                                      'read from a netCDF file is a numpy scalar, which timedelta rejects (TypeError), so getTimes(bounds=True) and every lookup by time bounds fail for IOAPI files on disk' % (k.arg, bare[0])), oid='timedelta@%s' % k.arg)
+    if not nstep:
+        ctx.ok('R-STEPINT', 'timedelta arguments', wgt, 'no file attribute reaches timedelta() unconverted (%d names derived from attributes)' % len(tainted))
     # R-DOCDEFAULT: "None defaults to <name>" in a docstring is implemented as `if p is None: p = <name>`
     ctx.rule('R-DOCDEFAULT', 'documented default of an optional parameter is the one the code applies')
     for name in FUNCS:
